@@ -214,6 +214,9 @@ func c14Run(ctx *core.Ctx) {
 				if !ctx.Quick() {
 					for _, w := range risk {
 						byteStrings = append(byteStrings, string([]byte{x, y, z, w}))
+						for _, v := range risk[:6] {
+							byteStrings = append(byteStrings, string([]byte{x, y, z, w, v}))
+						}
 					}
 				}
 			}
@@ -290,7 +293,7 @@ func init() {
 		},
 		Bound: map[string]string{
 			"quick":    "1-byte strings, all 2- and 3-byte combinations of the risk alphabet; every exponent",
-			"thorough": "adds all 4-byte combinations of the risk alphabet",
+			"thorough": "adds all 4-byte combinations of the risk alphabet and 5-byte combinations ending in one of its first 6 bytes",
 		},
 		Run:    c14Run,
 		Replay: replayAs(runJSONCase),
